@@ -86,6 +86,8 @@ func (r *c12Run) runOp(op *c11Op) {
 		if op.v <= 2 {
 			account = c11AccountFor(op, op.v)
 		}
+		// the call is made when the schedule lets the operation take the lock (Start only announces it)
+		op.pass("pre")
 		pc, err := s.ProposerConfig(ctx, account, c11Pubkeys[op.v])
 		if err != nil || pc == nil {
 			ev["ok"] = false
@@ -175,6 +177,25 @@ func c12RunScenario(t *testing.T, tr *verifsupport.Trace, sc c12Scenario, watchd
 			c12Stress(r, st, watchdog)
 			return
 		case "Start":
+			if st.Kind == "fetch" {
+				// Env_SingleFetcher is the driver's duty: an earlier fetch that has not returned yet (the
+				// real interleaving drifted from the schedule) is let run freely and waited for
+				for _, prev := range r.order {
+					if prev.kind == "fetch" && !prev.finished.Load() {
+						for _, o := range r.order {
+							o.openAll()
+						}
+						select {
+						case <-prev.done:
+						case <-time.After(watchdog):
+							aborted = true // wedged: reported as Stuck below
+						}
+					}
+				}
+				if aborted {
+					continue
+				}
+			}
 			op := c11NewOp(st.Op, st.Kind, st.V)
 			r.ops[st.Op] = op
 			r.order = append(r.order, op)
@@ -196,10 +217,13 @@ func c12RunScenario(t *testing.T, tr *verifsupport.Trace, sc c12Scenario, watchd
 		case "Step":
 			op := r.ops[st.Op]
 			switch st.Name {
+			case "FetchRLock":
+				op.open("pre")
 			case "FetchLockReq":
 				op.open("src")
 				r.waitWriterPendingOrDone(op)
 			case "LookupRLock", "AuctionRLock":
+				op.open("pre")
 				if op.v <= 2 {
 					op.waitArrived("name", c12ArriveWait)
 				}
